@@ -25,6 +25,10 @@ def make_case(seed, prop, index, families=MAIN_FAMILIES, flavours=S.FLAVOURS_MAI
         case = g.case_disj(flavour, shape, n)
     elif fam == "CONF":
         case = g.case_conf(flavour, shape, n)
+    elif fam in ("SONE0", "SONE1"):
+        case = g.case_one(flavour, shape, int(fam[-1]), n, base_side=rng.randrange(2), seek=True)
+    elif fam == "SDISJ":
+        case = g.case_disj(flavour, shape, n, seek=True)
     elif fam == "CLASH":
         case = g.case_conf(flavour, shape, n, clash=True)
     elif fam == "SEEK1":
@@ -49,7 +53,7 @@ def hazard_free_by_construction(case):
 
 def classify(case):
     """Known-finding mechanisms (input predicates only) a failing run of this case may be attributed to."""
-    hz = H.any_hazard(case["sched"])
+    hz = H.any_hazard(case["sched"], case["flavour"])
     ks = []
     if "HD" in hz:
         ks.append("K1")
@@ -63,4 +67,6 @@ def classify(case):
                     ks.append("K13")
     if "HX" in hz:
         ks.append("K14")
+    if "HC" in hz:
+        ks.append("K15")
     return hz, ks
